@@ -188,6 +188,7 @@ package gozxing
 //@   requires other != nil && other != b && wfBA(b) && padBA(b) && wfBA(other) && b.size < 1<<29 && other.size < 1<<29 && arr(b.bits) != arr(other.bits)
 //@   ensures wfBA(b) && padBA(b) && b.size == old(b.size) + other.size
 //@   ensures forall k int :: 0 <= k && k < old(b.size) ==> bit(b, k) == old(bit(b, k))
+//@   modifies b.bits, b.bits[*], b.size
 //@   loop 0: invariant 0 <= i && i <= otherSize && otherSize == other.size && wfBA(other) && other.size == old(other.size) && other.bits == old(other.bits)
 //@   loop 0: invariant wfBA(b) && padBA(b) && b.size == old(b.size) + i && arr(b.bits) != arr(other.bits) && (b.bits == old(b.bits) || fresh(b.bits))
 //@   loop 0: invariant forall k int :: 0 <= k && k < old(b.size) ==> bit(b, k) == old(bit(b, k))
